@@ -249,3 +249,20 @@ Definition load_with (vm : raw_cfg -> cres config) (fmt : N) (manifest_dir : str
   end.
 Definition load := load_with visit_map.
 Definition load_old := load_with visit_map_old.
+
+(** ** The text of the manifest: where the section is cut (ConfigFile::new)
+
+    `cfg_file_str.split_once("[package.metadata.leptos-i18n]")`: the FIRST occurrence of the header
+    string, wherever it stands; what precedes it is replaced by its line feeds only (so that TOML
+    error positions keep their line numbers) and chained with what follows it.  The result is the
+    text handed to the TOML deserializer; [None] = ConfigNotPresent. *)
+Definition header : str :=
+  [91; 112; 97; 99; 107; 97; 103; 101; 46; 109; 101; 116; 97; 100; 97; 116; 97; 46;
+   108; 101; 112; 116; 111; 115; 45; 105; 49; 56; 110; 93].
+Definition line_feed : N := 10.
+Definition only_line_feeds (s : str) : str := filter (fun c => c =? line_feed) s.
+Definition section_text (manifest : str) : option str :=
+  match split_once header manifest with
+  | Some (before, body) => Some (only_line_feeds before ++ body)
+  | None => None
+  end.
